@@ -61,7 +61,7 @@ type decompressor struct {
 	eof           bool
 }
 
-func (r *decompressor) Reset(under io.Reader, _ []byte) error {
+func (r *decompressor) Reset(under io.Reader, dict []byte) error {
 	r.r = under
 	if ur, ok := under.(*bufio.Reader); ok {
 		r.rBuf = ur
@@ -78,6 +78,14 @@ func (r *decompressor) Reset(under io.Reader, _ []byte) error {
 	r.err = nil
 	r.writePos = 0
 	r.readPos = 0
+	if len(dict) > 0 {
+		// preset dictionary: its last 32 KiB are the history the stream may refer to
+		if len(dict) > historySize {
+			dict = dict[len(dict)-historySize:]
+		}
+		r.writePos = copy(r.historyBuffer[:], dict)
+		r.readPos = r.writePos
+	}
 	r.state.reset()
 	return nil
 }
